@@ -243,7 +243,7 @@ def check_stencil_eigen(case, ctx):
             if not err <= 1e-5:
                 raise Violation(
                     f"L[e] != lambda*e: err {err:.2e} of ||L|| (lambda={lam:.6g}, (p,q)={(p, q)}, gpts={nx, ny}, accuracy={acc}, via={case['via']})",
-                    ("eigenvalue", case["via"], "zero-mode" if (p, q) == (0, 0) else "mode"),
+                    ("eigenvalue", case["via"]),
                 )
     else:
         dx, dy = case["sampling"]
@@ -307,7 +307,7 @@ def check_vacuum_intensity(case, ctx):
     if not np.all(rel <= 1e-4):
         raise Violation(
             f"vacuum propagation changed the intensity by {rel.max():.2e} (dz={dz:.4g}, case={case})",
-            ("intensity", case["scope"], f"order{case['order']}"),
+            ("intensity", case["scope"]),
         )
 
 
@@ -411,7 +411,7 @@ def check_lazy_eager(case, ctx):
     if not tol.close(b, a, rtol=1e-6):
         raise Violation(
             f"lazy != eager real-space multislice: rel err {tol.rel_err(b, a):.2e} ({case})",
-            ("lazy_eager", case["builder"], case["scope"]),
+            ("lazy_eager", case["builder"]),
         )
     if gen.axes_to_plain(eager.axes_metadata) != gen.axes_to_plain(lazy.axes_metadata):
         raise Violation("axes metadata differ between lazy and eager", ("axes_metadata", case["builder"]))
